@@ -32,7 +32,9 @@ type concurrentTxn struct {
 func NewConcurrentTxnFrom(ctx context.Context, rootstore corekv.TxnStore, id uint64, readonly bool) *BasicTxn {
 	rootTxn := rootstore.NewTxn(readonly)
 	rootConcurentTxn := &concurrentTxn{Txn: rootTxn}
-	multistore := NewMultistore(rootTxn)
+	// The stores must be built from the wrapped transaction: built from rootTxn they bypass the
+	// mutex on every data access.
+	multistore := NewMultistore(rootConcurentTxn)
 
 	return &BasicTxn{
 		Multistore: multistore,
@@ -63,6 +65,14 @@ func (t *concurrentTxn) Set(ctx context.Context, key []byte, value []byte) error
 	t.mu.Lock()
 	defer t.mu.Unlock()
 	return t.Txn.Set(ctx, key, value)
+}
+
+// Iterator creates the iterator under the mutex: the underlying transaction reads its pending
+// writes while doing so.
+func (t *concurrentTxn) Iterator(ctx context.Context, opts corekv.IterOptions) (corekv.Iterator, error) {
+	t.mu.Lock()
+	defer t.mu.Unlock()
+	return t.Txn.Iterator(ctx, opts)
 }
 
 // Sync executes the transaction.
